@@ -20,14 +20,63 @@ pub struct CutReader {
     pend: bool,
     last_pending: bool,
     seek_to: Option<usize>,
+    /// Slow source: everything from the first cut on "arrives" only when a controlled helper thread has
+    /// run; until then polls answer `Pending` (the waker is woken by that thread, not by the poll itself).
+    /// Unlike a self-waking `Pending` this lets the blocking inflate tasks finish *while* the source is
+    /// stalled in the middle of a block, so a block can be handed to the caller while the frame decoder
+    /// sits on a half-read one.
+    slow: Option<Slow>,
     /// What was delivered (0 = Pending); shared with the harness.
     pub log: Arc<Mutex<Vec<usize>>>,
+}
+
+struct Slow {
+    arrived: Arc<std::sync::atomic::AtomicBool>,
+    waker: Arc<Mutex<Option<std::task::Waker>>>,
+    requested: bool,
 }
 
 impl CutReader {
     pub fn new(data: Arc<Vec<u8>>, mut cuts: Vec<usize>, pend: bool) -> Self {
         cuts.sort_unstable();
-        Self { data, pos: 0, window_end: 0, cuts, pend, last_pending: false, seek_to: None, log: Arc::new(Mutex::new(Vec::new())) }
+        Self { data, pos: 0, window_end: 0, cuts, pend, last_pending: false, seek_to: None, slow: None, log: Arc::new(Mutex::new(Vec::new())) }
+    }
+
+    /// The slow source described at the `slow` field (no self-waking `Pending`s).
+    pub fn new_slow(data: Arc<Vec<u8>>, cuts: Vec<usize>) -> Self {
+        let mut r = Self::new(data, cuts, false);
+        r.slow = Some(Slow { arrived: Arc::new(std::sync::atomic::AtomicBool::new(false)), waker: Arc::new(Mutex::new(None)), requested: false });
+        r
+    }
+
+    /// true: the bytes at `self.pos` have not arrived yet; the waker is registered with the delivery thread.
+    fn stalled(&mut self, cx: &mut Context<'_>) -> bool {
+        use std::sync::atomic::Ordering;
+        let first = self.cuts.first().copied().unwrap_or(usize::MAX);
+        let pos = self.pos;
+        let Some(slow) = self.slow.as_mut() else { return false };
+        if pos < first || slow.arrived.load(Ordering::SeqCst) {
+            return false;
+        }
+        *slow.waker.lock().unwrap() = Some(cx.waker().clone());
+        if !slow.requested {
+            slow.requested = true;
+            let (arrived, waker) = (slow.arrived.clone(), slow.waker.clone());
+            // a controlled thread under vrt (a scheduling point like any other spawn)
+            let _ = noodles_bgzf::verif::thread::spawn(move || {
+                arrived.store(true, Ordering::SeqCst);
+                let w = waker.lock().unwrap().take();
+                if let Some(w) = w {
+                    w.wake();
+                }
+            });
+        }
+        // the thread may have run inside the spawn's scheduling point
+        if self.slow.as_ref().unwrap().arrived.load(Ordering::SeqCst) {
+            return false;
+        }
+        self.log.lock().unwrap().push(0);
+        true
     }
 
     fn next_end(&self) -> usize {
@@ -56,7 +105,7 @@ impl AsyncRead for CutReader {
         if n == 0 {
             return Poll::Ready(Ok(()));
         }
-        if self.pend_now(cx) {
+        if self.stalled(cx) || self.pend_now(cx) {
             return Poll::Pending;
         }
         let p = self.pos;
@@ -71,7 +120,7 @@ impl AsyncRead for CutReader {
 impl AsyncBufRead for CutReader {
     fn poll_fill_buf(mut self: Pin<&mut Self>, cx: &mut Context<'_>) -> Poll<io::Result<&[u8]>> {
         if self.pos >= self.window_end && self.pos < self.data.len() {
-            if self.pend_now(cx) {
+            if self.stalled(cx) || self.pend_now(cx) {
                 return Poll::Pending;
             }
             self.window_end = self.next_end();
